@@ -1,0 +1,44 @@
+// Copyright 2018 The go-python Authors.  All rights reserved.
+// Use of this source code is governed by a BSD-style
+// license that can be found in the LICENSE file.
+
+// Methods of Go types read from the class rather than from an instance
+
+package py
+
+// UnboundMethod is what reading a method of a built-in type from
+// the class gives, e.g. list.append.  Calling it takes the receiver
+// as the first argument: list.append(l, 1).
+type UnboundMethod struct {
+	Method *Method
+	Owner  *Type
+}
+
+var UnboundMethodType = NewType("method_descriptor", "method of a built-in type read from the class")
+
+// Type of this object
+func (o *UnboundMethod) Type() *Type {
+	return UnboundMethodType
+}
+
+// Call the method with args[0] as the receiver
+func (o *UnboundMethod) M__call__(args Tuple, kwargs StringDict) (Object, error) {
+	if len(args) == 0 {
+		return nil, ExceptionNewf(TypeError, "descriptor '%s' of '%s' object needs an argument", o.Method.Name, o.Owner.Name)
+	}
+	self := args[0]
+	if selfType := self.Type(); selfType != o.Owner && !selfType.IsSubtype(o.Owner) {
+		return nil, ExceptionNewf(TypeError, "descriptor '%s' requires a '%s' object but received a '%s'", o.Method.Name, o.Owner.Name, selfType.Name)
+	}
+	if kwargs != nil {
+		return o.Method.CallWithKeywords(self, args[1:], kwargs)
+	}
+	return o.Method.Call(self, args[1:])
+}
+
+func (o *UnboundMethod) M__repr__() (Object, error) {
+	return String("<method '" + o.Method.Name + "' of '" + o.Owner.Name + "' objects>"), nil
+}
+
+// Check interface is satisfied
+var _ I__call__ = (*UnboundMethod)(nil)
